@@ -897,7 +897,7 @@ Definition pg_adm (w : pg_world) (o : pg_op) : Prop :=
   | PoReplace d i _ => pg_not_node (pg_get w d) i
   | PoSwap d i j => pg_not_node (pg_get w d) i /\ pg_not_node (pg_get w d) j /\
                     pg_lookup (pd_store (pg_get w d)) i <> None /\ pg_lookup (pd_store (pg_get w d)) j <> None
-  | PoCopyForeign _ _ | PoRefresh _ | PoPushInh _ => False
+  | PoCopyForeign _ _ | PoRefresh _ | PoPushInh _ | PoReplaceInd _ _ _ | PoReplaceReserved _ _ => False
   end.
 
 (* the same call on the plain list (content markers) *)
@@ -971,7 +971,7 @@ Lemma pg_step_refines : forall w o, pg_good w -> pg_adm w o ->
   let '(s', raise_) := pg_spec_step (pg_marks2 w) (pg_abs w o) in
   pg_marks2 w' = s' /\ pg_is_err r = raise_ /\ pg_good w'.
 Proof.
-  intros w o Hg Ha. destruct o as [d h first|d h first|d h before r|d h|d i|d h|d i v|d i j|d|d|d|d i|d v];
+  intros w o Hg Ha. destruct o as [d h first|d h first|d h before r|d h|d i|d h|d i v|d i j|d|d|d|d i|d v|d i h|d i];
     cbn [pg_adm] in Ha; try contradiction; destruct (pg_good_get w d Hg) as [Hi Hne].
   - (* addPage *)
     cbn [pg_step pg_abs]. destruct first.
@@ -1268,3 +1268,24 @@ Lemma swap_keeps_stream_data_refuted_lemma :
     let w2 := fst (pg_step w1 (PoSwap false l 3)) in
     snd (pg_step w1 (PoSwap false l 3)) = PrOk /\ pg_stream_data (fst w2) 3 = None.
 Proof. exists pg_ex_world, 6. vm_compute. repeat split; reflexivity. Qed.
+
+(* FULL STATEMENT that fails: "replaceObject with an indirect handle raises and changes nothing".  The one indirect form
+   QPDF::replaceObject admits - the stream that already is the object - is accepted and destroys the stream: the cached
+   object is moved into itself and ends up as a reference to itself. *)
+Lemma replace_stream_by_itself_refuted_lemma :
+  exists w, pg_stream_data (fst w) 5 = Some [65] /\
+    snd (pg_step w (PoReplaceInd false 5 (PhObj false 5))) = PrOk /\
+    pg_stream_data (fst (fst (pg_step w (PoReplaceInd false 5 (PhObj false 5))))) 5 = None /\
+    pg_lookup (pd_store (fst (fst (pg_step w (PoReplaceInd false 5 (PhObj false 5)))))) 5 = Some (PcObj (PvRef 5)).
+Proof. exists pg_ex_world. vm_compute. repeat split; reflexivity. Qed.
+
+(* every other indirect handle of the same document (dictionary, array, null object, stream of another object) is rejected
+   and nothing changes *)
+Lemma replace_indirect_rejected_lemma : forall w d i j,
+  pg_lookup (pd_store (pg_get w d)) j <> None ->
+  pg_is_stream (pd_store (pg_get w d)) (PvRef j) && (j =? i) = false ->
+  pg_step w (PoReplaceInd d i (PhObj d j)) = (w, PrErr PeLogic).
+Proof.
+  intros w d i j Hex Hs. cbn [pg_step]. unfold pg_norm.
+  destruct (pg_lookup (pd_store (pg_get w d)) j); [|congruence]. rewrite Hs. reflexivity.
+Qed.
